@@ -44,6 +44,17 @@ CLAIMED['C14'] = dict(
    note='Trusted: clang AST, sa/atomic.py, SQLite per-statement atomicity (incl. triggers) and rollback. Not decided: library creation (many DDL statements, no transaction - the property speaks of tracks, crates, membership, fields), that the library stays usable beyond no leaked transaction. Three genuine defects repaired (v1 set_bpm, set_last_played_at, set_relative_path); five known findings in the 2.x track handle (no connection available there).',
    ref='DESIGN.md 4 C14')
 
+CLAIMED['C03'] = dict(
+   technique='grammar extraction from the clang AST for encoder and decoder of each codec, symbolic extent computation (linear forms over container sizes), dominance check of range guards, enumerator comparison for sentinel constants, finite evaluation of the zlib chunk loops',
+   text='Decides the structural conditions under which decode(encode(x)) == x for all x, for the 11 codecs: S1 the emission grammar of each encoder equals the consumption grammar of its decoder item by item (primitive kind and byte order, logical field, repeat count source, byte runs), both read from the code and compared with each other (no table); S2 every container length narrowed into a one-byte wire field is dominated by a throwing range guard; S3 the bytes an encoder writes, as a linear form in container sizes and label lengths, equal the bytes it allocated; S4 no absent-sentinel constant is a legal present value (enum-typed fields against every enumerator; the -1 empty-slot offsets; an enumerated table of 0-is-unknown conventions); S5 every 1.x write path applies the decode-after-encode guard; S6 the shared compressor emits one complete deflate stream for every payload size and neither zlib loop drops pending output.',
+   note='Trusted: clang AST, sa/codec.py, zlib. Not decided: bit-pattern preservation of doubles beyond the byte placement of C02-L1. Two genuine defects repaired (label length, v1 cue buffer size); two known findings (c_major sentinel in 1.x trackData, unguarded 1.x bulk write path).',
+   ref='DESIGN.md 4 C03')
+CLAIMED['C04'] = dict(
+   technique='grammar extraction of the five 2.x codecs with field-type resolution; alias and member-assignment tracking in the 2.x track setters (read-modify-write typestate)',
+   text='P1 decides that each 2.x codec is structurally lossless for every accepted byte string: every wire item the decoder consumes lands unchanged in a struct field at least as wide as the wire type (bool only for the one byte the property names), the encoder emits exactly that field at the same position with the same byte order, counts are container sizes, trailing bytes are captured to the end and emitted last, nothing is skipped or replaced by a constant. P2 decides the consequence for the API: each of the 13 blob writes in the 2.x track setters passes the object obtained from the matching getter in the same call and assigns only members of its own logical field (an indexed setter only the indexed element; sibling setters inlined).',
+   note='Trusted: clang AST, sa/codec.py, zlib round trip. The intended-member table in sa/rules/c04.py is a semantic slot table (which wire members make up a logical field). One genuine defect repaired (set_loops dropped trailing data).',
+   ref='DESIGN.md 4 C04')
+
 NOT_APPLICABLE = {
  'C19': 'numerical result of integer/floating arithmetic over all inputs (ceiling division, quantisation, minimality, monotonicity): no structural clause beyond the division guard, which C15-U6 covers; a sound decision needs an arithmetic solver or proof (different family)',
  'C20': 'floating-point numerical behaviour of beat-grid extrapolation (bracketing, tempo preservation, idempotence up to rounding); only the iterator arithmetic is shape-visible and is covered by C15-U3',
